@@ -1541,7 +1541,10 @@ def check_negotiated_sizes(ctx, seed):
              ('responder_lists_aes128_first', {'over_b': {'protect': {'encr': ['aes128', 'aes256']}}}),
              ('responder_prefers_sha256', {'child_integ': ('sha512', 'sha256'), 'over_b': {'protect': {'integ': ['sha256']}}}),
              ('responder_prefers_sha512_pfs', {'child_integ': ('sha256', 'sha512'), 'child_dh': ('14',),
-                                               'over_b': {'protect': {'integ': ['sha512', 'sha256']}}})]
+                                               'over_b': {'protect': {'integ': ['sha512', 'sha256']}}}),
+             # PFS with an INVALID_KE_PAYLOAD retry after an IKE_SA rekey that was postponed (a stale successor object
+             # is still around): the DH secret that goes into KEYMAT must be the one of the retried exchange at both ends
+             ('pfs_retry_after_postponed_rekey', {'child_dh': ('15', '14'), 'child_dh_b': ('14',)})]
     for name, conf in confs:
         rep = {'kind': 'negotiated-sizes', 'name': name, 'seed': seed}
         calls = []
@@ -1554,7 +1557,10 @@ def check_negotiated_sizes(ctx, seed):
             return r
         with Pair(seed=seed, **conf) as p, mock.patch.object(ikesa.IkeSa, 'generate_child_sa_key_material', gen):
             try:
-                p.run(scripted('new_child') + scripted('rekey_child')[5:] + [['deliver', 0]] * 4)
+                if name == 'pfs_retry_after_postponed_rekey':
+                    p.run(scripted('postponed_rekey_then_child'))
+                else:
+                    p.run(scripted('new_child') + scripted('rekey_child')[5:] + [['deliver', 0]] * 4)
             except LoopEscape as ex:
                 fails.append(Failure('property', 'loop:escaped-exception', f'{name}: {ex.exc!r}', rep))
                 continue
